@@ -72,7 +72,14 @@ class Entity(ABC):
 
         map_attributes(self, **kwargs)
 
-        self.workspace.register(self)
+        try:
+            self.workspace.register(self)
+        except RuntimeError:
+            # Identifier already in use: undo the link created by the parent setter.
+            parent = self._parent
+            if parent is not None and self in getattr(parent, "_children", []):
+                parent._children.remove(self)  # pylint: disable=protected-access
+            raise
 
     @property
     def allow_delete(self) -> bool:
